@@ -4,13 +4,20 @@
 //!    ops  := comma list of a<n>.<sal> | A<n>.<sal> (added disabled) | r<n> | e<n> | d<n> | c   (`-` = none)
 //!    the rule added at position i carries tag i (stored in `Rule::description`); rule n is named "R<n>"
 //!    obs  := step;step;…   step := <out>:<version>[/<snap>]
-//!    snap := rules|names|count|bysal|byidx|version|stats|lookups|twin
-//! concurrent case := `C <pre> <t0> <t1> <t2>` (ops as above plus observers g<n> l n k s i<idx> v t)
+//!           | y  (fork: `spare = kb; kb = kb.clone()` — later calls go to the clone, the original stays alive)
+//!           | z  (exchange `kb` and `spare`; the spare is a fresh knowledge base before the first fork)
+//!    snap := rules|names|count|bysal|byidx|version|stats|lookups|twin|export
+//!           twin   = `=` iff get_rules_snapshot() shows what get_rules() shows
+//!           export = `=` iff export_to_grl() parses back to: name() / version() / rule_count() / the get_rules() listing
+//!                    (otherwise `#` + what it showed)
+//! concurrent case := `C <pre> <t0> <t1> <t2>` (ops as above plus observers g<n> l n k s i<idx> v t, and
+//!    w = get_rules_snapshot, x = export_to_grl (shown as the statistics of what it lists), y = clone().get_rules())
 //!    obs  := event;…  event := <thread>.<pos>:<inv>:<resp>:<out>  (stamps from one global atomic counter)
 use rre_harness::*;
 use rust_rule_engine::engine::knowledge_base::{KnowledgeBase, KnowledgeBaseStats};
 use rust_rule_engine::engine::rule::{Condition, ConditionGroup, Rule};
 use rust_rule_engine::types::{Operator, Value};
+use std::collections::HashMap;
 use std::sync::atomic::{AtomicU64, Ordering};
 use std::sync::{Arc, Barrier};
 
@@ -28,6 +35,12 @@ enum Op {
     ByIndex(usize),
     Version,
     Stats,
+    Snapshot,
+    Export,
+    /// sequential histories: `spare = kb; kb = kb.clone()`; concurrent histories: observer `clone().get_rules()`
+    CloneKb,
+    /// sequential histories: exchange `kb` and `spare` (the original and its clone are used in turn)
+    Swap,
 }
 
 fn show_op(o: &Op) -> String {
@@ -46,6 +59,10 @@ fn show_op(o: &Op) -> String {
         Op::ByIndex(i) => format!("i{}", i),
         Op::Version => "v".into(),
         Op::Stats => "t".into(),
+        Op::Snapshot => "w".into(),
+        Op::Export => "x".into(),
+        Op::CloneKb => "y".into(),
+        Op::Swap => "z".into(),
     }
 }
 
@@ -76,6 +93,10 @@ fn parse_op(s: &str) -> Option<Op> {
         "i" => Op::ByIndex(rest.parse().ok()?),
         "v" if rest.is_empty() => Op::Version,
         "t" if rest.is_empty() => Op::Stats,
+        "w" if rest.is_empty() => Op::Snapshot,
+        "x" if rest.is_empty() => Op::Export,
+        "y" if rest.is_empty() => Op::CloneKb,
+        "z" if rest.is_empty() => Op::Swap,
         _ => return None,
     })
 }
@@ -188,6 +209,7 @@ enum Res {
     Nat(u64),
     Idxs(Vec<usize>),
     Stats(KnowledgeBaseStats),
+    Raw(String),
 }
 
 fn show_res(r: &Res) -> String {
@@ -204,6 +226,7 @@ fn show_res(r: &Res) -> String {
         Res::Nat(n) => n.to_string(),
         Res::Idxs(is) => join_nums(is),
         Res::Stats(s) => show_stats(s),
+        Res::Raw(s) => s.clone(),
     }
 }
 
@@ -224,7 +247,106 @@ fn apply(kb: &KnowledgeBase, op: &Op, tag: usize) -> Res {
         Op::ByIndex(i) => Res::Rule(kb.get_rule_by_index(*i)),
         Op::Version => Res::Nat(kb.version()),
         Op::Stats => Res::Stats(kb.get_statistics()),
+        Op::Snapshot => Res::Rules(kb.get_rules_snapshot()),
+        Op::Export => match parse_export(&kb.export_to_grl()) {
+            // shown as the statistics of what the export lists (one atomic view of rules + version)
+            Some(e) if e.count == e.rules.len() => {
+                let mut dist: HashMap<i32, usize> = HashMap::new();
+                for r in &e.rules {
+                    *dist.entry(r.1).or_insert(0) += 1;
+                }
+                let en = e.rules.iter().filter(|r| r.2).count();
+                Res::Stats(KnowledgeBaseStats {
+                    name: e.name.clone(),
+                    version: e.version,
+                    total_rules: e.rules.len(),
+                    enabled_rules: en,
+                    disabled_rules: e.rules.len() - en,
+                    priority_distribution: dist,
+                })
+            }
+            _ => Res::Raw("bad-export".into()),
+        },
+        Op::CloneKb => Res::Rules(kb.clone().get_rules()),
+        Op::Swap => Res::Unit, // sequential histories only (see `apply_seq`)
     }
+}
+
+/// sequential executor over two live knowledge bases: `y` = `spare = kb; kb = kb.clone()` (the original stays alive),
+/// `z` = exchange the two; every other call goes to `kb`
+fn apply_seq(kb: &mut KnowledgeBase, spare: &mut KnowledgeBase, op: &Op, tag: usize) -> Res {
+    match op {
+        Op::CloneKb => {
+            let c = kb.clone();
+            *spare = std::mem::replace(kb, c);
+            Res::Unit
+        }
+        Op::Swap => {
+            std::mem::swap(kb, spare);
+            Res::Unit
+        }
+        _ => apply(kb, op, tag),
+    }
+}
+
+struct Exported {
+    name: String,
+    version: u64,
+    count: usize,
+    /// (name id, salience, enabled, tag)
+    rules: Vec<(String, i32, bool, String)>,
+}
+
+/// read back what `export_to_grl` shows: the three header lines and, per rule block, the name, the description
+/// (= tag; a rule loaded from GRL text has none and carries its tag in `Y = <tag>;`), the salience (absent = 0) and
+/// the `// DISABLED` marker. `None` = not of that shape.
+fn parse_export(text: &str) -> Option<Exported> {
+    let mut lines = text.lines();
+    let name = lines.next()?.strip_prefix("// Knowledge Base: ")?.to_string();
+    let version = lines.next()?.strip_prefix("// Version: ")?.parse().ok()?;
+    let count = lines.next()?.strip_prefix("// Rules: ")?.parse().ok()?;
+    let mut rules = Vec::new();
+    let mut disabled = false;
+    let mut cur: Option<(String, i32, bool, Option<String>)> = None;
+    for l in lines {
+        let t = l.trim();
+        if t == "// DISABLED" {
+            if cur.is_some() {
+                return None;
+            }
+            disabled = true;
+        } else if let Some(h) = l.strip_prefix("rule ") {
+            if cur.is_some() {
+                return None;
+            }
+            let h = h.strip_suffix(" {")?;
+            let (nm, mut rest) = match h.split_once(' ') {
+                Some((a, b)) => (a, b),
+                None => (h, ""),
+            };
+            let mut desc = None;
+            if let Some(r) = rest.strip_prefix('"') {
+                let (d, r2) = r.split_once('"')?;
+                desc = Some(d.to_string());
+                rest = r2.trim_start();
+            }
+            let sal = if rest.is_empty() { 0 } else { rest.strip_prefix("salience ")?.parse().ok()? };
+            cur = Some((name_id(nm), sal, !disabled, desc));
+            disabled = false;
+        } else if let Some(y) = t.strip_prefix("Y = ") {
+            let c = cur.as_mut()?;
+            if c.3.is_none() {
+                c.3 = Some(y.strip_suffix(';')?.to_string());
+            }
+        } else if l == "}" {
+            let c = cur.take()?;
+            rules.push((c.0, c.1, c.2, c.3.unwrap_or_else(|| "?".into())));
+        }
+    }
+    if cur.is_some() || disabled {
+        return None;
+    }
+    Some(Exported { name, version, count, rules })
 }
 
 fn snapshot(kb: &KnowledgeBase, k: u32) -> String {
@@ -255,15 +377,33 @@ fn snapshot(kb: &KnowledgeBase, k: u32) -> String {
         show_stats(&kb.get_statistics()),
         show_list(lookups),
         (if twin == rules_s { "=" } else { "#" }).to_string(),
+        export_flag(kb, &rules_s, count),
     ]
     .join("|")
 }
 
+/// `=` iff the export shows name(), version(), rule_count() and the get_rules() listing; otherwise what it showed
+fn export_flag(kb: &KnowledgeBase, rules_s: &str, count: usize) -> String {
+    let text = kb.export_to_grl();
+    match parse_export(&text) {
+        Some(e) => {
+            let listing = show_list(e.rules.iter().map(|r| format!("{}.{}.{}.{}", r.0, r.1, if r.2 { 1 } else { 0 }, r.3)).collect());
+            if e.name == kb.name() && e.version == kb.version() && e.count == count && listing == rules_s {
+                "=".into()
+            } else {
+                format!("#{}~{}~{}~{}", hex(&e.name), e.version, e.count, listing)
+            }
+        }
+        None => format!("#?{}", hex(&text)),
+    }
+}
+
 fn exec_seq(full: bool, k: u32, ops: &[Op]) -> String {
-    let kb = KnowledgeBase::new("kb");
+    let mut kb = KnowledgeBase::new("kb");
+    let mut spare = KnowledgeBase::new("kb");
     let mut steps = Vec::with_capacity(ops.len());
     for (i, op) in ops.iter().enumerate() {
-        let r = apply(&kb, op, i);
+        let r = apply_seq(&mut kb, &mut spare, op, i);
         let mut s = format!("{}:{}", show_res(&r), kb.version());
         if full || i + 1 == ops.len() {
             s.push('/');
@@ -299,9 +439,10 @@ fn exec(case: &str) -> String {
             let (Some(k), Some(pre), Some(bulk)) = (t[1].parse::<u32>().ok(), parse_ops(t[2]), parse_ops(t[3])) else {
                 return "bad-case".into();
             };
-            let kb = KnowledgeBase::new("kb");
+            let mut kb = KnowledgeBase::new("kb");
+            let mut spare = KnowledgeBase::new("kb");
             for (i, op) in pre.iter().enumerate() {
-                apply(&kb, op, i);
+                apply_seq(&mut kb, &mut spare, op, i);
             }
             let mut text = String::new();
             for (j, op) in bulk.iter().enumerate() {
@@ -443,13 +584,15 @@ fn exhaustive_with(rng: &mut Rng, names: u32, sals: &[i32], full: bool, minlen: 
 
 fn random_mutator(rng: &mut Rng, names: u32, sals: &[i32]) -> Op {
     let n = rng.below(names as u64) as u32;
-    match rng.below(100) {
+    match rng.below(104) {
         0..=39 => Op::Add(n, *rng.pick(sals), true),
         40..=49 => Op::Add(n, *rng.pick(sals), false),
         50..=71 => Op::Remove(n),
         72..=82 => Op::SetEnabled(n, true),
         83..=93 => Op::SetEnabled(n, false),
-        _ => Op::Clear,
+        94..=99 => Op::Clear,
+        // sequential: fork (the original is kept as the spare); in a thread of a concurrent case: observe the clone's listing
+        _ => Op::CloneKb,
     }
 }
 
@@ -463,8 +606,11 @@ fn random_any(rng: &mut Rng, names: u32, sals: &[i32]) -> Op {
         81..=84 => Op::Count,
         85..=87 => Op::BySalience,
         88..=91 => Op::ByIndex(rng.below(4) as usize),
-        92..=95 => Op::Version,
-        _ => Op::Stats,
+        92..=94 => Op::Version,
+        95..=96 => Op::Stats,
+        97 => Op::Snapshot,
+        98 => Op::Export,
+        _ => Op::CloneKb,
     }
 }
 
@@ -502,6 +648,13 @@ fn large_case(rng: &mut Rng) -> String {
             }
             83..=88 if !stored.is_empty() => ops.push(Op::SetEnabled(*rng.pick(&stored), rng.chance(1, 2))),
             89..=92 if !stored.is_empty() => ops.push(Op::Add(*rng.pick(&stored), *rng.pick(classes), true)), // rejected duplicate
+            // the clone re-adds (and re-sorts) more than 20 rules one by one; sometimes go on with the original
+            98 if stored.len() > 20 => {
+                ops.push(Op::CloneKb);
+                if rng.chance(1, 2) {
+                    ops.push(Op::Swap);
+                }
+            }
             93..=97 if !removed.is_empty() => {
                 let n = removed.remove(rng.below(removed.len() as u64) as usize);
                 ops.push(Op::Add(n, *rng.pick(classes), true)); // re-add under an old name (new tag, new place among equals)
@@ -551,6 +704,39 @@ fn gen(rng: &mut Rng, n: usize, tier: &str) -> Vec<String> {
             .map(|_| Op::Add(rng.below(names as u64 + 2) as u32, *rng.pick(&SALS), true))
             .collect();
         out.push(format!("B {} {} {}", names + 2, show_ops(&pre), show_ops(&bulk)));
+    }
+    // (2d) clones: every mutator sequence of length <= 3 over 2 names x 2 saliences (full alphabet) with "continue on
+    // the clone" inserted at a random position and a second one at the end, snapshot after every call; plus longer
+    // random histories with several clones (the state must survive the clone: index, order among equals, flags)
+    {
+        let mut base = Vec::new();
+        exhaustive(rng, 2, &SALS[1..], 3, &mut base);
+        for c in base {
+            let t: Vec<&str> = c.split_whitespace().collect();
+            let mut ops = parse_ops(t[2]).unwrap_or_default();
+            let at = rng.below(ops.len() as u64 + 1) as usize;
+            ops.insert(at, Op::CloneKb);
+            // (a) go on with the clone, look at the original at the end; (b) go on with the original, look at the clone
+            let mut a = ops.clone();
+            a.push(Op::Swap);
+            a.push(Op::CloneKb);
+            out.push(format!("T 2 {}", show_ops(&a)));
+            ops.insert(at + 1, Op::Swap);
+            ops.push(Op::Swap);
+            out.push(format!("T 2 {}", show_ops(&ops)));
+        }
+        for _ in 0..(n / 10).max(40) {
+            let names = *rng.pick(&[2u32, 3, 4, 6]);
+            let len = rng.range(3, 16) as usize;
+            let ops: Vec<Op> = (0..len)
+                .map(|_| match rng.below(10) {
+                    0 => Op::CloneKb,
+                    1 | 2 => Op::Swap,
+                    _ => random_mutator(rng, names, &SALS),
+                })
+                .collect();
+            out.push(format!("T {} {}", names, show_ops(&ops)));
+        }
     }
     // (3) concurrent histories: 3 threads x 4 calls on a shared knowledge base
     for _ in 0..(n / 8).max(1) {
